@@ -860,6 +860,46 @@ func runC04(r *Run) {
 		}
 		r.Floor("R17", "granter arguments in erc20 allowance handlers", nG, 3)
 	}
+	r.Rule("R18", "PATH.nobody-signs-for-a-module-account: the precompiles take evm.Origin for the transaction's signer, but the erc20 module's internal EVM calls (ConvertCoin of a native-ERC20 pair: token.transfer, committed) run with the module account as origin — nobody signed for it — and the callee is third-party token code. RunSetup therefore compares evm.Origin with the erc20 module address and reaches a successful return for a transaction method only over the 'not equal' edge; otherwise a registered token's transfer() makes one extra call to staking.approve / ics20.approve and leaves an authz grant over the module account — neither the signer nor the caller — to a third party")
+	if rs, ok := r.P.FnOK("(precompiles/common.Precompile).RunSetup"); ok {
+		eq, _ := condEdges(rs, func(x, y ssa.Value) bool {
+			isOrigin := func(v ssa.Value) bool {
+				u, ok := v.(*ssa.UnOp)
+				if !ok {
+					return false
+				}
+				_, f, ok := fieldOfAddr(u.X)
+				return ok && f == "Origin"
+			}
+			isModAddr := func(v ssa.Value) bool {
+				u, ok := v.(*ssa.UnOp)
+				if !ok {
+					return false
+				}
+				g, ok := u.X.(*ssa.Global)
+				return ok && g.Name() == "ModuleAddress" && g.Pkg != nil && strings.HasSuffix(g.Pkg.Pkg.Path(), "x/erc20/types")
+			}
+			return isOrigin(x) && isModAddr(y)
+		})
+		okGuard := len(eq) > 0
+		if okGuard {
+			// over the equal edge no successful return is reachable
+			for _, e := range eq {
+				succ := e.From.Succs[e.Succ]
+				w := PathQuery{Fn: rs, StartBlock: succ, Target: func(in ssa.Instruction) bool {
+					ret, ok := in.(*ssa.Return)
+					return ok && classifyExit(ret) != ExitFailure
+				}}.Search()
+				if w != nil {
+					okGuard = false
+				}
+			}
+		}
+		r.Check(okGuard, "R18", fnID(rs)+"#origin-is-not-the-erc20-module", r.P.Pos(fnPos(rs)), "evm.Origin == erc20 ModuleAddress leads to failure only",
+			"RunSetup lets a transaction method run with the erc20 module account as origin: during a user's MsgConvertCoin of a native-ERC20 pair the token's transfer() calls staking.approve(attacker, unlimited, [MsgDelegate]) — the grant erc20-module → attacker is stored (the ERC-20 Approval monitor does not see it) and the attacker's authz MsgDelegate takes the module account from 1000aISLM to 0")
+	} else {
+		r.Bad("R18", "anchor/precompiles/common.RunSetup", "", "not found")
+	}
 	r.Rule("R16", "see C05 R9 (imported): 'reduced by exactly the amount used' includes the failed spend — the grant update is written before the native message moves anything (authz DispatchActions, the precompiles' own UpdateGrant), so every precompile Run with Cosmos-side effects executes its methods on a CacheContext branch written only on success; otherwise a failed spend that the calling contract tolerates still consumes the allowance")
 	r.Import("R16/C05.", []string{"R9"}, runC05)
 }
